@@ -85,7 +85,7 @@ def judge(case):
 
 
 def shards(tier):
-    n = 6 if tier == "quick" else 300
+    n = 10 if tier == "quick" else 300
     return [{"id": f"{la}{lb}", "la": la, "lb": lb, "n": n, "cost": n * (1 + la + lb)}
             for la in range(6) for lb in range(6)]
 
